@@ -105,6 +105,21 @@ func writeEntry(storeDir string, i int, kind string, pki *tsPKI, outside string)
 		c := []*x509.Certificate{pki.chain.Root(), pki.chain.Certs[1]}
 		must(os.WriteFile(fn, pemOf(c...), 0644))
 		return c
+	case "multiCAThenLeaf", "multiLeafThenCA":
+		// as a PEM bundle or as concatenated DER
+		c := []*x509.Certificate{pki.chain.Root(), pki.chain.Certs[1], pki.chain.Leaf()}
+		if kind == "multiLeafThenCA" {
+			c = []*x509.Certificate{pki.chain.Leaf(), pki.chain.Root()}
+		}
+		if i%2 == 0 {
+			must(os.WriteFile(fn, pemOf(c...), 0644))
+		} else {
+			var der []byte
+			for _, x := range c {
+				der = append(der, x.Raw...)
+			}
+			must(os.WriteFile(fn, der, 0644))
+		}
 	case "selfSignedLeaf":
 		must(os.WriteFile(fn, pemOf(pki.selfLeaf.Leaf()), 0644))
 		return []*x509.Certificate{pki.selfLeaf.Leaf()}
